@@ -17,9 +17,11 @@ def quat_z(yaw):
 
 
 def write(root, samples, categories, vis_levels=("full", "most", "partial", "none"), lidar_channel="LIDAR_CONCAT",
-          extra_camera=False, attributes=("vehicle_state.moving",), scene_name="scene0", with_visibility=True, scene_of=None):
+          extra_camera=False, attributes=("vehicle_state.moving",), scene_name="scene0", with_visibility=True, scene_of=None, raw=False):
     """scene_of: optional list, scene index of every sample row (rows of several scenes may alternate in the sample table, as in a
-    dataset merged from overlapping logs and sorted by time); prev/next links stay inside a scene."""
+    dataset merged from overlapping logs and sorted by time); prev/next links stay inside a scene.
+    raw: also write the sensor files (a small point cloud per lidar key frame, a small image per camera key frame, a map image) so that the
+    dataset can be loaded with load_raw_data=True; a sample may then give the camera its own ego pose (key "cam_ego")."""
     ann_dir = os.path.join(root, "annotation")
     os.makedirs(ann_dir, exist_ok=True)
     T = {k: [] for k in ["category", "attribute", "visibility", "instance", "sensor", "calibrated_sensor", "ego_pose", "log",
@@ -42,7 +44,14 @@ def write(root, samples, categories, vis_levels=("full", "most", "partial", "non
         T["calibrated_sensor"].append(dict(token="cs1", sensor_token="sens1", translation=[1.5, 0, 1.2], rotation=[0.5, -0.5, 0.5, -0.5],
                                            camera_intrinsic=[[1000, 0, 640], [0, 1000, 360], [0, 0, 1]]))
     T["log"].append(dict(token="log0", logfile="", vehicle="v", date_captured="2020-01-01", location="loc"))
-    T["map"].append(dict(token="map0", log_tokens=["log0"], category="semantic_prior", filename=""))
+    T["map"].append(dict(token="map0", log_tokens=["log0"], category="semantic_prior", filename="maps/none.png" if raw else ""))
+    if raw:
+        import numpy as _np
+        from PIL import Image as _Image
+        os.makedirs(os.path.join(root, "maps"), exist_ok=True)
+        _Image.fromarray(_np.zeros((4, 4), dtype=_np.uint8)).save(os.path.join(root, "maps", "none.png"))
+        os.makedirs(os.path.join(root, "data", lidar_channel), exist_ok=True)
+        os.makedirs(os.path.join(root, "data", "CAM_FRONT"), exist_ok=True)
     n = len(samples)
     scene_of = list(scene_of) if scene_of is not None else [0] * n
     for sc in sorted(set(scene_of)):
@@ -66,10 +75,20 @@ def write(root, samples, categories, vis_levels=("full", "most", "partial", "non
                                      timestamp=s.get("lidar_ts", s["ts"]), fileformat="pcd.bin", is_key_frame=True, height=0, width=0,
                                      filename="data/%s/%d.pcd.bin" % (lidar_channel, i), prev=tok("sd", i - 1) if i > 0 else "",
                                      next=tok("sd", i + 1) if i < n - 1 else ""))
+        if raw:
+            _np.zeros((10, 5), dtype=_np.float32).tofile(os.path.join(root, "data/%s/%d.pcd.bin" % (lidar_channel, i)))
         if extra_camera:
-            T["sample_data"].append(dict(token=tok("sc", i), sample_token=tok("s", i), ego_pose_token=tok("ep", i), calibrated_sensor_token="cs1",
-                                         timestamp=s.get("cam_ts", s["ts"]), fileformat="jpg", is_key_frame=True, height=720, width=1280,
-                                         filename="data/CAM_FRONT/%d.jpg" % i, prev=tok("sc", i - 1) if i > 0 else "",
+            cam_ep = tok("ep", i)
+            if s.get("cam_ego") is not None:      # the camera image was taken a moment later: its own ego pose record
+                cx_, cy_, cyaw_ = s["cam_ego"]
+                cam_ep = tok("epc", i)
+                T["ego_pose"].append(dict(token=cam_ep, timestamp=s.get("cam_ts", s["ts"]), rotation=list(geom.quat_from_ypr(cyaw_, 0.0, 0.0)), translation=[cx_, cy_, 0.0]))
+            ext = "png" if raw else "jpg"
+            if raw:
+                _Image.fromarray(_np.zeros((48, 64, 3), dtype=_np.uint8)).save(os.path.join(root, "data/CAM_FRONT/%d.png" % i))
+            T["sample_data"].append(dict(token=tok("sc", i), sample_token=tok("s", i), ego_pose_token=cam_ep, calibrated_sensor_token="cs1",
+                                         timestamp=s.get("cam_ts", s["ts"]), fileformat=ext, is_key_frame=True, height=48 if raw else 720, width=64 if raw else 1280,
+                                         filename="data/CAM_FRONT/%d.%s" % (i, ext), prev=tok("sc", i - 1) if i > 0 else "",
                                          next=tok("sc", i + 1) if i < n - 1 else ""))
         for a in s["anns"]:
             t = tok("a", aidx)
